@@ -50,6 +50,11 @@ SEED_SOURCES = {
     "nonascii-string-then-number": "VAR x = 0\n~ x = \"é\" + 12\n{x}\n",
     "nonascii-call-args": "{f(\"é\", 2)}\n=== function f(a, b) ===\n~ return b\n",
     "tunnel-onwards-paren": "== A ==\n->-> )(\n",
+    "switch-branch-sequence": "VAR x = 1\n{ x:\n  - 1: rain {a|b|c}\n  - else: no\n}\n",
+    "nested-sequence": "-> k\n=== k ===\n{&x {&a|b}|y}\n+ [again] -> k\n",
+    "unknown-function": "~ nosuch()\n",
+    "unknown-read-count": "{nosuch.label}\n-> END\n",
+    "unknown-list-item": "LIST l = a, b\nVAR v = (zzz)\n{v}\n",
     "deep-negation": "VAR x = 0\n~ x = " + "-" * 20000 + "1\n",
     "deep-parens": "VAR x = 0\n~ x = " + "(" * 5000 + "1" + ")" * 5000 + "\n",
     "long-sum": "VAR x = 0\n~ x = 1" + " + 1" * 20000 + "\n",
